@@ -331,7 +331,7 @@ func (e *Engine) mergeValues(c *Term, a, b Value) (Value, bool) {
 		return nil, false
 	case FuncV:
 		y, ok := b.(FuncV)
-		if ok && x.fn == y.fn && x.builtin == y.builtin && len(x.bind) == 0 && len(y.bind) == 0 {
+		if ok && x.fn == y.fn && x.builtin == y.builtin && len(x.bind) == 0 && len(y.bind) == 0 && x.builtin != "ctxcancel" {
 			return x, true
 		}
 		return nil, false
